@@ -34,9 +34,13 @@ def sets_for(tier, seed):
         s.append(("epallb", K("EPALLb", 2, 0, lemmas=1), "bfs", None))
         s.append(("ep2w-%d" % (seed % 6 + 1), K("EP2w", 1, seed % 6 + 1), "bfs", None))
         s.append(("ep2b-%d" % ((seed + 2) % 6 + 1), K("EP2b", 1, (seed + 2) % 6 + 1), "bfs", None))
+        s.append(("eprrw-%d" % (seed % 8 + 1), K("EPRRw", 1, seed % 8 + 1), "bfs", None))
+        s.append(("eprrb-%d" % ((seed + 4) % 8 + 1), K("EPRRb", 1, (seed + 4) % 8 + 1), "bfs", None))
         s.append(("epxw-d", K("EPXw", 1, 4), "bfs", None))
         s.append(("epxb-e", K("EPXb", 1, 5), "bfs", None))
         s.append(("castle-1", K("CASTLE", 1, 1), "bfs", None))
+        s.append(("rookcapw", K("ROOKCAPw", 1, 0, lemmas=1), "bfs", None))
+        s.append(("rookcapb", K("ROOKCAPb", 1, 0, lemmas=1), "bfs", None))
         s.append(("kpk7w-b", K("KPK7w", 1, 2, lemmas=1), "bfs", None))
         s.append(("kpk7b-g", K("KPK7b", 1, 7, lemmas=1), "bfs", None))
         s.append(("kk", K("KK", 999, 0, lemmas=2), "bfs", None))
@@ -59,9 +63,13 @@ def sets_for(tier, seed):
         s.append(("epallb", K("EPALLb", 3, 0, lemmas=1), "bfs", None))
         s.append(("ep2w", K("EP2w", 1, 0, lemmas=1), "bfs", None))
         s.append(("ep2b", K("EP2b", 1, 0, lemmas=1), "bfs", None))
+        s.append(("eprrw", K("EPRRw", 1, 0), "bfs", None))
+        s.append(("eprrb", K("EPRRb", 1, 0), "bfs", None))
         s.append(("epxw", K("EPXw", 1, 0), "bfs", None))
         s.append(("epxb", K("EPXb", 1, 0), "bfs", None))
         s.append(("castle", K("CASTLE", 1, 0), "bfs", None))
+        s.append(("rookcapw", K("ROOKCAPw", 2, 0, lemmas=1), "bfs", None))
+        s.append(("rookcapb", K("ROOKCAPb", 2, 0, lemmas=1), "bfs", None))
         s.append(("pinw", K("PINw", 0, 0, lemmas=1), "bfs", None))
         s.append(("pinb", K("PINb", 0, 0, lemmas=1), "bfs", None))
         s.append(("rand-%d" % seed, K("RAND", 999, 8), "sim", {"num": 1500, "depth": 30, "seed": seed}))
